@@ -5008,3 +5008,90 @@ def r12_20(ctx, rule):
 def r07_19(ctx, rule):
     from ..trim import check_trims
     check_trims(ctx, rule, ['nbdime.diffing.'])
+
+
+@extra('C05', 'R05.17', 'split_string_path, tabulated over small documents (root string, string under keys, string inside a list, no string on the path): it returns the path up to the '
+       'first string it reaches and the rest as the line key -- decisions on a line of a string are applied to the string, not to a character of it', 8)
+def r05_17(ctx, rule):
+    from .. import miniinterp
+    repo = ctx.repo
+    fid = 'nbdime.merging.decisions:split_string_path'
+    fn = repo.func(fid)
+    docs = [('root string', 'ab\ncd\n'), ('string under a key', {'a': 'x\ny\n', 'n': 1}), ('string under two keys', {'a': {'b': 't\n'}}),
+            ('string in a list', ['u\n', {'k': 'v\nw\n'}]), ('no string', {'a': [1, {'b': 2}]})]
+    paths = {'root string': [(), (0,), (1,)], 'string under a key': [(), ('a',), ('a', 0), ('a', 1), ('n',)],
+             'string under two keys': [('a',), ('a', 'b'), ('a', 'b', 0)], 'string in a list': [(0,), (0, 0), (1, 'k'), (1, 'k', 1)],
+             'no string': [('a',), ('a', 1), ('a', 1, 'b')]}
+
+    def want(doc, path):
+        for i in range(len(path)):
+            if isinstance(doc, str):
+                return path[:i], path[i:]
+            doc = doc[path[i]]
+        return path, ()
+    for label, doc in docs:
+        for p in paths[label]:
+            try:
+                got = miniinterp.call(fn, [doc, p], what='split_string_path')
+            except miniinterp.Raised as ex:
+                got = 'raises %s' % ex
+            w = want(doc, p)
+            ok = isinstance(got, tuple) and len(got) == 2 and tuple(got[0]) == w[0] and tuple(got[1]) == w[1]
+            ctx.inst(rule, fid, '%s, path %r' % (label, p), ok, 'splits into %r' % (w,) if ok else
+                     'returns %r where the path up to the string is %r and the line key %r: apply_decisions then resolves the decision\'s path INTO the string (a character) and '
+                     'patching fails or edits the wrong thing' % (got, w[0], w[1]), fn)
+
+
+@extra('C17', 'R17.19', 'what nbdime hands out for one changed file does not depend on the files handled before it: nothing on the git-listing path writes module-level state (C12 '
+       'R12.1) -- git decides per file (a clean filter that fails on one file is still applied to the next)', 8)
+def r17_19(ctx, rule):
+    from ..report import run_sub
+    from . import c12
+    run_sub(ctx, c12, {'R12.1': rule})
+
+
+@extra('C06', 'R06.3', 'apply_decisions returns the document as patched (C15 R15.11): no normalising step after the decision loop removes what neither side touched (ids of untouched cells, '
+       'empty containers)', 2)
+def r06_3(ctx, rule):
+    r15_11(ctx, rule)
+
+
+def _r_star_path_table(ctx, rule):
+    """star_path is the link between a concrete path (of a decision, of a diff entry) and the keys of the strategy / differ / ignore tables ('/cells/*/source')."""
+    import re as _re
+    from .. import miniinterp
+    repo = ctx.repo
+    UT_ = 'nbdime.utils'
+    sp = repo.func(UT_ + ':star_path')
+    m = repo.mod(UT_)
+    globs = {}
+    for nm in {x.id for x in ast.walk(sp) if isinstance(x, ast.Name)}:
+        if repo.has_func(UT_ + ':' + nm):
+            globs[nm] = repo.func(UT_ + ':' + nm)
+        elif nm in m.assigns and len(m.assigns[nm]) == 1:
+            v = m.assigns[nm][0]
+            if isinstance(v, ast.Call) and dotted(v.func) == 're.compile' and v.args and isinstance(const_val(v.args[0]), str):
+                flags = 0
+                globs[nm] = _re.compile(const_val(v.args[0]), flags)
+    table = [(('cells', 0, 'source'), '/cells/*/source'), (('cells', 12, 'outputs', 3, 'data', 'text/plain'), '/cells/*/outputs/*/data/text/plain'),
+             (('cells', '7', 'metadata'), '/cells/*/metadata'), (('cells', '12', 'id'), '/cells/*/id'), (('metadata', 'kernelspec', 'name'), '/metadata/kernelspec/name'), ((), '/'),
+             (('cells',), '/cells'), (['cells', 3], '/cells/*'), (('metadata', 'v2', 'x1'), '/metadata/v2/x1'), (('cells', 0, 'attachments', 'image.png'), '/cells/*/attachments/image.png')]
+    for path, want in table:
+        try:
+            got = miniinterp.call(sp, [path], what='star_path', globs=globs)
+        except miniinterp.Raised as ex:
+            got = 'raises %s' % ex
+        ok = got == want
+        ctx.inst(rule, UT_ + ':star_path', 'path %r' % (path,), ok, '-> %s' % want if ok else
+                 'gives %r, the tables are keyed by %r: the strategy / differ / ignore configured for this path is not found (or one for another path is)' % (got, want), sp)
+
+
+@extra('C10', 'R10.14', 'star_path, tabulated: list positions (ints and digit strings) become *, keys stay, the result is /-joined with a leading / -- the form the strategy table is '
+       'keyed by', 10)
+def r10_14(ctx, rule):
+    _r_star_path_table(ctx, rule)
+
+
+@extra('C14', 'R14.22', 'star_path, tabulated (as R10.14): the form the differ / ignore tables are keyed by', 10)
+def r14_22(ctx, rule):
+    _r_star_path_table(ctx, rule)
